@@ -79,7 +79,7 @@ theorem pack_create_setup {w : WM} {iss : List Handle} {s : WS} (hi : Inv ⟨w, 
   rw [hdeps0] at hbf
   refine ⟨?_, hbf.2, ?_⟩
   · rw [applyPack_eq, packStart_create]
-    simp only [isCreateCmd, if_true, Cmd.entity, hdeps0]
+    simp only [isCreateCmd, if_true, Cmd.entity, hdeps0, packInit_create]
     rw [hbf.1]
   · have hstep : s.applyCmd info (.create k m ssh) =
         (s.setEnt k (some ⟨rebuild info [] (closedMask w.deps m) [], ssh⟩), cbDiff info k [] (closedMask w.deps m)) := by
